@@ -49,6 +49,7 @@ fn main() {
             let a: u64 = args[5].parse().unwrap();
             let b: u64 = args[6].parse().unwrap();
             let mut out = WorkerOut::default();
+            out.stage = Some(stage);
             p.run(tier, stage, a, b, &mut out);
             println!("WORKER-RESULT {}", out.to_json());
         }
